@@ -30,6 +30,11 @@ observation of a transaction is
   of every such context exactly once after the commit and never after a rollback, their pre-commit actions never (only the Db.Update /
   Db.Batch that OPENS a transaction runs those of the context it was called with), tx-complete listeners only for transactions
   Db.Update / Db.Batch opened;
+* fifth strengthening (seeded C08-w5-2): a fourth field of a REGS token says HOW the caller hands the additional change types to the Add*Listener
+  call (store_c08_regpass.go): spelled out, an empty slice, ONE buffer with spare capacity re-filled and passed to several registrations (any
+  styles / stores), a slice (with or without spare capacity) the caller overwrites after the call.  The expectation does not depend on it: a
+  registration is registered for the kinds its call named WHEN IT WAS MADE (Properties/C08.v registration_types_fixed over Store/EventsReg.v, the
+  slice / append model of the registration code); the driver plays the caller's program against that model and takes the listeners' types from it;
 * correspondence: the same line is printed by the extracted machine (Store/Events.v run_tx_v,
   delivered_to; Store/TxShared.v shared_update - an extension of Store/TxHooks.v db_update - for the program) and compared token by token (results, events, deliveries incl. state digests, hooks).
 """
@@ -41,7 +46,8 @@ import storefam
 import vlib
 
 PID = "C08"
-FILES = ["theories/Properties/C08.v", "theories/Examples/C08Examples.v", "theories/Examples/C08Wirings.v", "theories/Examples/C08Shared.v"]
+FILES = ["theories/Properties/C08.v", "theories/Examples/C08Examples.v", "theories/Examples/C08Wirings.v", "theories/Examples/C08Shared.v",
+         "theories/Examples/C08Regs.v"]
 
 FILTER_STYLES = ["ts", "ta", "fs", "fa", "us", "ua", "is", "ia"]
 STATE_STYLES = ("ts", "ta", "fs", "fa", "us", "ua", "c", "uc")
@@ -103,7 +109,7 @@ def split_mode(case):
     if case.startswith("REGS "):
         _, n, case = case.split(" ", 2)
         parts = case.split(" ", int(n))
-        regs, case = [tuple(r.split(":")) for r in parts[:int(n)]], parts[int(n)]
+        regs, case = [(tuple(r.split(":")) + ("l",))[:4] for r in parts[:int(n)]], parts[int(n)]
     return mode, progs, regs, case
 
 
@@ -114,9 +120,32 @@ TYPE_NAME = dict(C="EntityCreated", U="EntityUpdated", D="EntityDeleted", c="Ent
 CHANGE_WORD = dict(C="create", U="update", D="delete")
 
 
-def reg_text(reg):
-    style, store, types = reg
-    return "%s.%s(listener, %s)" % (store, STYLE_CALL.get(style, style), ", ".join(TYPE_NAME[t] for t in types))
+def scribble_type(types):
+    """what the caller writes over a slice it passed (store_c08_regpass.go c08Scribble)"""
+    for kd in "CUD":
+        if kd not in types.upper():
+            return kd
+    return types[0]
+
+
+def reg_text(reg, regs=None):
+    """the Go call of a registration, with the way the caller hands the additional types over (fourth field of the REGS
+    token, store_c08_regpass.go).  Whatever that way is, the listener is registered for the types the call names."""
+    style, store, types, how = reg
+    call = "%s.%s(listener, %%s)" % (store, STYLE_CALL.get(style, style))
+    first, rest = TYPE_NAME[types[0]], ", ".join(TYPE_NAME[t] for t in types[1:])
+    if how == "z":
+        return call % (first + ", []EntityEventType{}...")
+    if how[0] == "b":
+        buf = "buf" + how[1:]
+        sharers = [k for k, r in enumerate(regs or []) if r[3] == how]
+        return "%s = append(%s[:0]%s); %s  [%s: ONE make([]EntityEventType, 0, 4) of the caller, re-filled and passed by registrations %s of the REGS section, in that order]" % (
+            buf, buf, ", " + rest if rest else "", call % (first + ", " + buf + "..."), buf, sharers)
+    if how[0] == "s":
+        n, k = len(types) - 1, int(how[1:])
+        return "sl := append(make([]EntityEventType, 0, %d)%s); %s; afterwards the caller overwrites all %d cells of sl[:cap(sl)] with %s" % (
+            n + k, ", " + rest if rest else "", call % (first + ", sl..."), n + k, TYPE_NAME[scribble_type(types)])
+    return call % ", ".join(TYPE_NAME[t] for t in types)
 
 
 def pseudo(tx, name):
@@ -449,7 +478,7 @@ def oracle(sch, mode, progs, regs, txs, io):
         written = Counter(op.get("id") for op in tx["ops"] if op["kind"] in ("C", "UP"))
         if regs and got == exp:
             wantm, havem = Counter(), Counter()
-            for r, (style, store, types) in enumerate(regs):
+            for r, (style, store, types, _how) in enumerate(regs):
                 for (s, ch, i, p), n in exp.items():
                     if s == store and ch in types.upper():
                         wantm[(r, i)] += n
@@ -461,21 +490,22 @@ def oracle(sch, mode, progs, regs, txs, io):
                 changes = sorted(ch for (s, ch, j, _), n in exp.items() for _ in range(n) if s == regs[r][1] and j == i)
                 out.append(("C08:multi-type-listener-count",
                             "the listener registered by %s was notified %d times about entity %s of store %s, expected %d (once per committed "
-                            "change of a registered kind; committed changes of that entity on the store: %s)%s" % (
-                                reg_text(regs[r]), havem[(r, i)], i, regs[r][1], wantm[(r, i)],
+                            "change of a kind the registration named when it was made: %s; committed changes of that entity on the store: %s)%s" % (
+                                reg_text(regs[r], regs), havem[(r, i)], i, regs[r][1], wantm[(r, i)],
+                                "/".join(CHANGE_WORD[c] for c in "CUD" if c in regs[r][2].upper()),
                                 ", ".join(CHANGE_WORD[c] for c in changes) or "none", note), k))
             else:
                 for t in lm:
                     p = t.split(":")
                     r, hid, dg = int(p[1]), p[5], p[6]
-                    style, store, types = regs[r]
+                    style, store, types, _how = regs[r]
                     chs = set(ch for (s, ch, j, _) in exp if s == store and j == hid and ch in types.upper())
                     if style == "i" or named[hid] > 1 or len(chs) != 1 or ("D" in chs and written[hid] > 0):
                         continue
                     ref = (prev if "D" in chs else post).digest(sch, store, hid)
                     if ref is not None and dg != ref:
                         out.append(("C08:delivered-state", "the listener registered by %s received %s for the %s of %s, the database holds %s" % (
-                            reg_text(regs[r]), dg, CHANGE_WORD[list(chs)[0]], hid, ref), k))
+                            reg_text(regs[r], regs), dg, CHANGE_WORD[list(chs)[0]], hid, ref), k))
                         break
         # the delivered state: final state (create/update), last state (delete) - decidable from the facts
         # when a single operation of the transaction names the entity
@@ -554,10 +584,10 @@ def main(argv):
     proof_ok = c.proof_step(FILES)
     c.cov["trusted_base"] = [
         "Coq 8.16.1 kernel (coqc; coqchk in the thorough tier); vm_compute in Examples only; no axioms",
-        "hand-written store machine coq/theories/Store/Model.v, its event layer Store/Events.v and the hook layers Store/TxHooks.v / Store/TxShared.v",
+        "hand-written store machine coq/theories/Store/Model.v, its event layer Store/Events.v, the hook layers Store/TxHooks.v / Store/TxShared.v and the slice model of the registration code Store/EventsReg.v",
         "bbolt Tx.OnCommit / rollback; the Go scheduler for asynchronous listeners (awaited, cap 10 s)",
         "extraction (ExtrOcamlBasic only) + extraction/c08_driver.ml + drv_common.ml",
-        "Go harness store.go / store_c08.go / store_c08_gen.go / store_c08_w2.go / store_c08_w3.go and the oracle in checks/c08.py",
+        "Go harness store.go / store_c08.go / store_c08_gen.go / store_c08_w2.go / store_c08_w3.go / store_c08_regpass.go and the oracle in checks/c08.py",
     ]
     model = vlib.build_model("C08")
     harness, err = vlib.build_harness()
@@ -618,7 +648,8 @@ def main(argv):
             ntx += len(io)
             continue
         reported = False
-        for key, desc, k in oracle(sch, mode, progs, regs, txs, io):
+        # what is wrong first, "deliveries the harness waited for did not arrive" after it
+        for key, desc, k in sorted(oracle(sch, mode, progs, regs, txs, io), key=lambda v: v[0] == "C08:async-timeout"):
             c.violation(key, desc, dict(case=case, impl=i, model=m, tx=k, gen=dict(gen, index=idx)))
             reported = True
         if c.replay:
@@ -648,7 +679,7 @@ def main(argv):
                      "wirings, through Db.Update, a Db.Batch stream and a stream whose caller swallows constraint vetoes and commits (a vetoed change must "
                      "never be announced); five schema wirings (two of them with three child stores - plain and extended - under one parent: entities living in "
                      "the 2nd / 3rd child store, deleted through parent, own or sibling store and by cascade); per history 3-7 listener registrations naming two "
-                     "or three change types in one call (4 styles, every order, sync / async entries); 18% of the Db.Update histories and 20% of the Db.Batch "
+                     "or three change types in one call (4 styles, every order, sync / async entries); in two thirds of the histories the registrations hand their types over the way callers do - 22% name a single type, 45% pass ONE re-used buffer with spare capacity (make(.., 0, 4), re-filled per registration, shared across styles and stores), 20% a slice with 0-3 spare cells that the caller overwrites right after the call, 10% an empty slice, 25% spelled out - the expectation being the kinds named at registration; 18% of the Db.Update histories and 20% of the Db.Batch "
                      "histories keep ONE MutateContext for (85% of) their transactions, 30% of those give up after their changes (rollback, then commits with the same "
                      "context); 40% of the Db.Batch histories issue 70% of their calls together with 1-2 failing Db.Batch calls that bbolt coalesces (re-run of the "
                      "innocent function with its context); 26 recording listeners per store (4 filtering styles x 3 change types x "
